@@ -14,6 +14,8 @@ HOSTILE = [b"contract Broken { function (", b"\x00\x9f\x92\x96\x00\xff\xfe\n\x00
 def contents():
     d = os.path.join(ROOT, "corpus", "dirwalk")
     m = {c: open(os.path.join(d, c + ".sol"), "rb").read() for c in ("c1", "c2", "c3", "c4", "c5", "c6", "c8", "c9", "c10", "c11")}
+    # a file of file-level items only (no contract, library or interface anywhere in its text)
+    m["c12"] = open(os.path.join(ROOT, "corpus", "free_items.sol"), "rb").read()
     # re-laid-out copies: the same words, the line breaks elsewhere
     m["c1r"] = relaid(m["c1"])
     m["c2r"] = relaid(m["c2"])
